@@ -142,11 +142,11 @@ type vfDest struct {
 	req       *storepb.WriteRequest
 	spec      vfSpec
 
-	series   []vfSeriesKey          // filled when the peer client is entered
+	series   []vfSeriesKey                   // filled when the peer client is entered
 	payload  []storepb.TimeSeriesTenantTuple // deep copy of what the peer client was handed
-	parked   chan struct{}          // closed when the peer client was entered
-	release  chan struct{}          // closed by the check
-	done     chan struct{}          // closed after the completion callback ran (response is in the channel)
+	parked   chan struct{}                   // closed when the peer client was entered
+	release  chan struct{}                   // closed by the check
+	done     chan struct{}                   // closed after the completion callback ran (response is in the channel)
 	released bool
 }
 
